@@ -9,7 +9,7 @@ if ! git -C "$wt" apply "$src/patch.diff" 2>/tmp/seed-$id.err; then echo "$id: P
 ( cd "$src" && PYTHONPATH=/repo PYTHONHASHSEED=0 timeout 120 /venv/bin/python demo.py >/tmp/seed-$id.demo0 2>&1 ); d0=$?
 ( cd "$src" && PYTHONPATH="$wt" PYTHONHASHSEED=0 timeout 120 /venv/bin/python demo.py >/tmp/seed-$id.demo1 2>&1 ); d1=$?
 cd /verif
-VERIF_REPO="$wt" ./check "$chk" >/tmp/seed-$id.check 2>&1; c=$?
+VERIF_REPO="$wt" VERIF_EVIDENCE_DIR="/tmp/seed-evidence" ./check "$chk" >/tmp/seed-$id.check 2>&1; c=$?
 v=$(grep -c '^VIOLATION' /tmp/seed-$id.check)
 nf=$(grep -c 'no-failing-input-found' /tmp/seed-$id.check)
 echo "$id (check $chk): demo(repo)=$d0 demo(changed)=$d1 check_exit=$c violations=$v no_input=$nf $(tail -1 /tmp/seed-$id.check | cut -c1-100)"
